@@ -17,7 +17,7 @@
 import GraphiqModel.Proofs.Noise
 import GraphiqModel.Proofs.Channel
 import GraphiqModel.Proofs.GateTable
-import GraphiqModel.Proofs.MixtureDMFinal
+import GraphiqModel.Proofs.MixtureDMPhysical
 namespace Graphiq.C06
 open Graphiq Graphiq.Noise Graphiq.DM
 
@@ -210,6 +210,41 @@ example :
       | .ok { ρ := some ρ, .. }, .ok s =>
           ρ.trace == (⟨3/4, 0⟩ : GQ) && s.mix.length == 4 && Mat.beq ρ (mixtureDensity 2 s.mix)
       | _, _ => false) = true := by decide +kernel
+
+/-! ### consequences of (c): the density matrix is physical, and both backends give the same fidelities -/
+
+open scoped ComplexOrder in
+/-- **the density-matrix result is positive semidefinite** (as a complex `2^n × 2^n` matrix): every measurement-free circuit on
+    existing qubits, depolarizing probabilities in `[0,1]`, loss rates `≤ 1`, every number of qubits.  (About the exact model;
+    positivity of the *floating-point* matrix is checked by the oracle.) -/
+theorem dm_is_positive_semidefinite (ns : Bool) (ne np nc : Nat) (det : Bool) (ops : List COp)
+    (hw : ∀ op ∈ ops, OpOK (ne + np) np op) (hl : ∀ op ∈ ops, ParamPhys op.n0 ∧ ParamPhys op.n1)
+    (d : DmSt) (ρ : Mat) (h : compileDM ns ne np nc det ops = .ok d) (hρ : d.ρ = some ρ) :
+    (toC (ne + np) ρ).PosSemidef := compileDM_psd ns ne np nc det ops hw hl d ρ h hρ
+
+/-- **its trace is the product of the photon survival probabilities** `∏ (1 − loss_j)` over the loss events of the placement
+    trace — exactly, as an element of ℚ[i] -/
+theorem dm_trace_is_survival_product (ns : Bool) (ne np nc : Nat) (det : Bool) (ops : List COp)
+    (hw : ∀ op ∈ ops, OpOK (ne + np) np op) (d : DmSt) (h : compileDM ns ne np nc det ops = .ok d) :
+    ∃ tr ρ, compileTrace ns .dm np ops = .ok tr ∧ d.ρ = some ρ ∧ ρ.trace = ⟨lossFactor tr, 0⟩ :=
+  compileDM_trace ns ne np nc det ops hw d h
+
+/-- **same fidelity with any pure stabilizer target**: `tr(ρ ρ_T)` computed on the density-matrix result equals
+    `Σ_k w_k tr(ρ_{T_k} ρ_T)`, the weighted sum `Infidelity.evaluate` forms over the branches of the mixture (`tr(ρ_{T_k} ρ_T)`
+    being the specification of `sfm.fidelity`, C05), for every target tableau `T` — exact arithmetic -/
+theorem same_overlap_with_any_stabilizer_target (ns : Bool) (ne np nc : Nat) (det : Bool) (ops : List COp)
+    (hw : ∀ op ∈ ops, OpOK (ne + np) np op) (s : StabSt) (d : DmSt) (ρ : Mat)
+    (hs : compileStab ns ne np nc det ops = .ok s) (hd : compileDM ns ne np nc det ops = .ok d) (hρ : d.ρ = some ρ)
+    (T : Tab) (hT : T.n = ne + np) :
+    (ρ.mul (stabilizerDensity T)).trace = mixOverlapQ T s.mix :=
+  overlap_both_backends ns ne np nc det ops hw s d ρ hs hd hρ T hT
+
+example : ∀ op ∈ exCircuit, ParamPhys op.n0 ∧ ParamPhys op.n1 := by
+  intro op h
+  simp only [exCircuit, List.mem_cons, List.not_mem_nil, or_false] at h
+  rcases h with rfl | rfl
+  · exact ⟨⟨by norm_num, by norm_num⟩, trivial⟩
+  · exact ⟨trivial, by show (1/4 : Rat) ≤ 1; norm_num⟩
 
 end clause_c
 
